@@ -37,7 +37,11 @@ MANIFEST = dict(
          "cumulative sum of its per-round increment, `x if i < r else y` giving two runs; stores through a field view kept under a name are stores "
          "into the table); a helper that only reads elements of an array it is passed leaves the vacated-slot state as it is; the list splitarray returns is read as a "
          "sequence (count, i-th element) whichever way it is built (loop-carried bounds with a constant step are solved in closed form) and "
-         "compared with var[i*nper:(i+1)*nper], count ceil(size/nper). Helpers "
+         "compared with var[i*nper:(i+1)*nper], count ceil(size/nper); a list written out in place that splitarray returns early (`return [var]`, "
+         "`return []`) must be the chunk list for every input that gets there: the tests on the way are solved over a six-way case split of all "
+         "(size, nper) (size // nper = 0 | 1 | >= 2, size % nper = 0 | > 0) in which every term is affine. A bound the sorts move away from the split "
+         "point may pass only positions whose KEY was compared equal to the pivot's key. Every use of pmap's iterable is classified (harmless, the "
+         "executor's draw, consuming, unknown): nothing may run through it on a path that leads to the executor's draw (one-shot iterators). Helpers "
          "of the package are followed (yield from / for over a wrapping generator, helpers that return a possibly-None total, closures).",
     note="Not decided: that the partition-exchange sort sorts (a proof obligation about the algorithm), process scheduling (delegated "
          "to Executor.map's documented ordering). Trusted: concurrent.futures.Executor.map order, divmod identity.",
